@@ -143,7 +143,8 @@ def run(chk, repo, tier):
                found=show(resid))
     # ---- R07.2 ---------------------------------------------------------
     pset, est, methods, pos = c01.linear_forms(chk, repo, rule='R07.2',
-                                               rule_try='R07.2')
+                                               rule_try='R07.2',
+                                               only=('get_SoR',))
     g = methods.get('get_Selements')
     if g is None:
         raise AnalysisError('estimator lacks get_Selements')
@@ -174,12 +175,17 @@ def run(chk, repo, tier):
            what='`Chem` is rdkit.Chem', qualname='<module>')
     # the molecule named by self.name is the one fixed at construction
     init = methods['__init__']
-    from .. import reviewed
-    reviewed.check(chk, 'R07.2', repo, GD, est + '.__init__',
-                   'the estimator constructor (self.name = lib.name, terms, '
-                   'range) is unchanged in normal form from its reviewed '
-                   'reference')
     libp = params(init)[1]
+    name_vals = set()
+    for p_ in sym.summarize(init):
+        for e in p_.stores():
+            if e[1] == ('attr', SELF, 'name'):
+                name_vals.add(e[2])
+    chk.ob('R07.2', name_vals == {('attr', ('name', libp), 'name')}, GD,
+           init, key='name=lib.name',
+           what='the estimate\'s molecule name is the library\'s name at '
+                'construction time', found=' | '.join(show(v)
+                                                      for v in name_vals))
     keeps = [ast.unparse(n) for n in ast.walk(init)
              if isinstance(n, ast.Assign) and isinstance(n.value, ast.Name)
              and n.value.id == libp
